@@ -732,3 +732,9 @@ VARIANTS += [
     V('C17-M21', 'M', ('C17',), QU, 'ResponsiveQueue.__setstate__', r'self\.queue, self\.stop_requested, self\.wait_interval_seconds = state', 'self.queue, self.wait_interval_seconds, self.stop_requested = state', ('C17-4',), note='order disagreement'),
     V('C17-E20', 'E', ALL, QU, 'ResponsiveQueue.__setstate__', r'self\.queue, self\.stop_requested, self\.wait_interval_seconds = state', 'self.__init__(*state)', note='re-initialisation with everything __getstate__ carries'),
 ]
+
+VARIANTS += [
+    V('C20-M20', 'M', ('C20',), CX, 'SpawnProcess.run', r'(logging\.getLogger\(\)\.removeHandler\(qh\)\n(\s+)logger_queue\.close\(\))', r'\1\n\2logger_queue.cancel_join_thread()', ('C20-2',), note='seeded C20-r2m1 shape'),
+    V('C20-M21', 'M', ('C20',), CX, 'SpawnProcess._run_logger', r'logger = logging\.getLogger\(record\.name\)\n(\s+)if record\.levelno >= logger\.getEffectiveLevel\(\):\n(\s+)logger\.handle\(record\)', r'record_logger = logging.getLogger(record.name)\n\1if record.levelno >= logger.getEffectiveLevel():\n\2record_logger.handle(record)', ('C20-3',), note='seeded C20-r2m2 shape'),
+    V('C20-E20', 'E', ALL, CX, 'SpawnProcess._run_logger', r'\blogger\b', 'record_logger', count=0, note='consistent rename of the local'),
+]
